@@ -51,7 +51,9 @@ CLAIMS = {
                  "BOUNDED: at every stop of every strategy result == sum coeff*component result recomputed independently, == from-scratch evaluation, unchanged by reevaluate_at_end."),
     "C06": mixed("PROVED: splitting an interval yields two children tiling it at an inner point with shared-point level max+1, inherited outer levels, coarsening max(c-1,0)>=0, "
                  "receiver unchanged, never raises; the selection kernel returns the FIRST object at/after the cursor whose benefit reaches the tolerance and advances the cursor "
-                 "(any container size); benefits non-negative. BOUNDED: whole-container tiling, tree level rule incl. rebalancing, coarsening/lmax bookkeeping, exact split set per step."),
+                 "(any container size); benefits non-negative; refinement_postprocessing (1-2 dimensions, any container sizes, rebalancing on or off, removal / sorting / rebalancing abstract): "
+                 "afterwards every interval's coarsening level == lmax[d] - its highest end-point level, never negative, lmax[d] >= deepest level (update_coarsening_values and "
+                 "RefinementContainer.update_values proved, raise_lmax assumed to add its argument to lmax[d]). BOUNDED: whole-container tiling, tree level rule incl. rebalancing, coarsening/lmax bookkeeping, exact split set per step."),
     "C07": mixed("PROVED for d in {1,2,3} with symbolic coordinates: split_area_single_dim / split_area_arbitrary_dim children lie inside the parent, have pairwise disjoint "
                  "interiors and volumes summing to the parent's; refine() for d in {1,2} under all three policies (split-then-extend, automatic extend/split by parent benefits, "
                  "splitSingleDim by twin errors): the outcome is either one area with the same box and coarsening >= 0 or 2^k areas tiling the parent with unchanged coarsening, never an exception; "
